@@ -21,7 +21,7 @@ import (
 )
 
 func init() {
-	register(&Check{ID: "C11", Level: "model_checking", Run: runC11, QuickBudget: 240 * time.Second, ThoroughBudget: 40 * time.Minute})
+	register(&Check{ID: "C11", Level: "model_checking", Run: runC11, QuickBudget: 480 * time.Second, ThoroughBudget: 40 * time.Minute})
 	Replayers["c11"] = replayC11
 }
 
